@@ -131,6 +131,8 @@ type rewriter struct {
 	tmp     int
 	// lhs marks expressions that are assignment targets / address-taken
 	lhs map[ast.Expr]bool
+	// shared marks local variables another goroutine might reach (markShared)
+	shared map[*types.Var]bool
 }
 
 func (rw *rewriter) vrt(name string) ast.Expr {
@@ -227,6 +229,7 @@ func (rw *rewriter) rewrite() (bool, error) {
 	}
 	if rw.spec.Race {
 		rw.markLHS(f)
+		rw.markShared(f)
 	}
 	astutil.Apply(f, rw.pre, rw.post)
 	if rw.err != nil {
@@ -588,6 +591,104 @@ func (rw *rewriter) markLHS(f *ast.File) {
 	})
 }
 
+// rootLocal returns the function-local variable whose own storage e denotes
+// (x, x.f, x.f.g, x[i] for arrays - no pointer indirection on the way), or nil.
+func (rw *rewriter) rootLocal(e ast.Expr) *types.Var {
+	for {
+		switch x := e.(type) {
+		case *ast.ParenExpr:
+			e = x.X
+		case *ast.SelectorExpr:
+			sel, ok := rw.info.Selections[x]
+			if !ok || sel.Kind() != types.FieldVal || sel.Indirect() {
+				return nil
+			}
+			e = x.X
+		case *ast.IndexExpr:
+			t := rw.info.TypeOf(x.X)
+			if t == nil {
+				return nil
+			}
+			if _, ok := t.Underlying().(*types.Array); !ok {
+				return nil
+			}
+			e = x.X
+		case *ast.Ident:
+			obj := rw.info.Uses[x]
+			if obj == nil {
+				obj = rw.info.Defs[x]
+			}
+			v, ok := obj.(*types.Var)
+			if !ok || v.IsField() || v.Parent() == nil || v.Parent() == rw.pkg.Scope() || v.Parent() == types.Universe {
+				return nil
+			}
+			return v
+		default:
+			return nil
+		}
+	}
+}
+
+// markShared collects the local variables another goroutine might reach:
+// captured by a function literal, address taken (explicitly, by a
+// pointer-receiver method call on the value, or by slicing an array).
+func (rw *rewriter) markShared(f *ast.File) {
+	rw.shared = map[*types.Var]bool{}
+	ast.Inspect(f, func(n ast.Node) bool {
+		switch x := n.(type) {
+		case *ast.FuncLit:
+			ast.Inspect(x.Body, func(m ast.Node) bool {
+				id, ok := m.(*ast.Ident)
+				if !ok {
+					return true
+				}
+				if v, ok := rw.info.Uses[id].(*types.Var); ok && !v.IsField() && (v.Pos() < x.Pos() || v.Pos() >= x.End()) {
+					rw.shared[v] = true
+				}
+				return true
+			})
+		case *ast.UnaryExpr:
+			if x.Op == token.AND {
+				if v := rw.rootLocal(x.X); v != nil {
+					rw.shared[v] = true
+				}
+			}
+		case *ast.SliceExpr:
+			if v := rw.rootLocal(x.X); v != nil {
+				rw.shared[v] = true
+			}
+		case *ast.CallExpr:
+			sel, ok := x.Fun.(*ast.SelectorExpr)
+			if !ok {
+				return true
+			}
+			s, ok := rw.info.Selections[sel]
+			if !ok || s.Kind() != types.MethodVal {
+				return true
+			}
+			if sig, ok := s.Obj().Type().(*types.Signature); ok && sig.Recv() != nil {
+				if _, ptrRecv := sig.Recv().Type().(*types.Pointer); ptrRecv {
+					if v := rw.rootLocal(sel.X); v != nil {
+						rw.shared[v] = true
+					}
+				}
+			}
+		case *ast.SelectorExpr:
+			// method value x.M with pointer receiver
+			if s, ok := rw.info.Selections[x]; ok && s.Kind() == types.MethodVal {
+				if sig, ok := s.Obj().Type().(*types.Signature); ok && sig.Recv() != nil {
+					if _, ptrRecv := sig.Recv().Type().(*types.Pointer); ptrRecv {
+						if v := rw.rootLocal(x.X); v != nil {
+							rw.shared[v] = true
+						}
+					}
+				}
+			}
+		}
+		return true
+	})
+}
+
 func syncType(t types.Type) bool {
 	for {
 		p, ok := t.(*types.Pointer)
@@ -635,6 +736,13 @@ func (rw *rewriter) raceExpr(c *astutil.Cursor) {
 		}
 		tv, ok := rw.info.Types[n]
 		if !ok || !tv.Addressable() || syncType(tv.Type) {
+			return
+		}
+		if v := rw.rootLocal(n); v != nil && !rw.shared[v] {
+			// storage of a function-local variable that no closure captures and
+			// whose address is never taken: no other goroutine can reach it (and
+			// it usually lives on the stack, whose addresses are recycled when a
+			// stack is moved)
 			return
 		}
 		if p, ok := c.Parent().(*ast.SelectorExpr); ok && p.X == n {
